@@ -39,6 +39,7 @@ func main() {
 	timed("value-pull-pipeline", func() { runValuePipeline(f, res, drv) })
 	timed("collection-subscribers", func() { runCollectionPipelines(f, res, drv) })
 	timed("backpressure-subscriber", func() { runBackpressure(f, res, drv) })
+	timed("mixed-subscribers", func() { runMixed(f, res, drv) })
 	timed("writers-and-subscribers (rest of it)", func() {
 		for k, v := range <-latDone {
 			res.Extra[k] = v
@@ -129,6 +130,14 @@ func replay(f lib.Flags) int {
 		}
 		obs := c.runCode("")
 		fmt.Printf("replay brun %s -> %s (received %v)\n", c.key(), obs.answer(), obs.Received)
+		c.monitor(m, obs)
+	case "xrun":
+		var c xrunCase
+		if err := json.Unmarshal(raw, &c); err != nil {
+			lib.Fatal(err)
+		}
+		obs := c.runCode("")
+		fmt.Printf("replay xrun %s -> %s (received %v)\n", c.key(), obs.answer(), obs.Received)
 		c.monitor(m, obs)
 	case "latency":
 		var c latencyCase
